@@ -18,6 +18,8 @@ func rewriteMetadata(p string, stat *types.Stat) error {
 	return chtimes(p, stat.ModTime)
 }
 
+func rewriteXattrs(_ string, _ *types.Stat) {}
+
 // handleTarTypeBlockCharFifo is an OS-specific helper function used by
 // createTarFile to handle the following types of header: Block; Char; Fifo
 func handleTarTypeBlockCharFifo(_ string, _ *types.Stat) error {
